@@ -10,13 +10,17 @@ props_override = None
 for a in sys.argv[1:]:
     if a.startswith("--props"):
         props_override = a.split("=", 1)[1].split(",")
+SCRATCH_NAME = "s"
+for a in sys.argv[1:]:
+    if a.startswith("--scratch="):
+        SCRATCH_NAME = a.split("=", 1)[1]
 res = []
 for name in sorted(os.listdir(os.path.join(VERIF, "seeded"))):
     sd = os.path.join(VERIF, "seeded", name)
     if not os.path.exists(os.path.join(sd, "patch.diff")) or (rx and not rx.search(name)):
         continue
     meta = json.load(open(os.path.join(sd, "meta.json")))
-    d = os.path.join(SCR, "s")
+    d = os.path.join(SCR, SCRATCH_NAME)
     if os.path.exists(d):
         shutil.rmtree(d)
     os.makedirs(SCR, exist_ok=True)
